@@ -3,6 +3,7 @@ package props
 import (
 	"fmt"
 	"path/filepath"
+	"regexp"
 	"strings"
 	"testing"
 
@@ -69,6 +70,8 @@ var c06Needles = map[string]string{
 	"replace-import-shadowed": "example.com/conversion/to",
 }
 
+var c06PkgRe = regexp.MustCompile(`(?m)^package ([A-Za-z_][A-Za-z0-9_]*)`)
+
 var c06Guards = []struct{ Label, Lines string }{
 	{"import:context-line", " import \"example.com/c06/absent\"\n\n"},
 	{"import:minus-line", "-import \"example.com/c06/absent\"\n\n"},
@@ -76,6 +79,10 @@ var c06Guards = []struct{ Label, Lines string }{
 	{"import:named-strings", " import c06name \"strings\"\n\n"},
 	{"import:dot", " import . \"example.com/c06/absent\"\n\n"},
 	{"package", " package c06nosuchpkg\n\n"},
+	{"package:file-is-external-test", ""}, // " package X" where the file says "package X_test"; filled in per host
+	{"package:file-is-external-test", ""},
+	{"package:guard-is-prefix", ""}, // " package X" where the file says "package Xq"
+
 	{"package:minus", "-package c06nosuchpkg\n+package c06renamed\n\n"},
 }
 
@@ -111,7 +118,21 @@ func c06DrawChange(rt *rapid.T, idx int) (*c06Change, string) {
 		}
 		if ch.Kind == "mined" && k >= 6 {
 			g := c06Guards[rapid.IntRange(0, len(c06Guards)-1).Draw(rt, lbl+"guard")]
-			if aug := c14AddImport(ch.Text, g.Lines); aug != ch.Text && c14Accepts(aug) {
+			if g.Lines == "" {
+				// guard = the host's own package name; the host then gets a
+				// package name that merely resembles it
+				if m := c06PkgRe.FindStringSubmatchIndex(host); m != nil {
+					name := host[m[2]:m[3]]
+					suffix := "_test"
+					if g.Label == "package:guard-is-prefix" {
+						suffix = "q"
+					}
+					renamed := host[:m[3]] + suffix + host[m[3]:]
+					if aug := c14AddImport(ch.Text, " package "+name+"\n\n"); aug != ch.Text && c14Accepts(aug) && c14Parses(renamed) {
+						ch.Text, ch.Kind, ch.Guard, host = aug, "guarded", g.Label+":"+name, renamed
+					}
+				}
+			} else if aug := c14AddImport(ch.Text, g.Lines); aug != ch.Text && c14Accepts(aug) {
 				ch.Text, ch.Kind, ch.Guard = aug, "guarded", g.Label
 			}
 		}
@@ -193,6 +214,7 @@ func c06DrawCase(rt *rapid.T) *c06Case {
 			name += "_test"
 		}
 		f.Name = name + ".go"
+		f.Mode = c12DrawMode(rt, lbl)
 		r.Files = append(r.Files, f)
 	}
 	r.Other = []c14File{{Name: "NOTES.txt", Src: "nothing to see\n", Role: "text"}}
@@ -225,6 +247,11 @@ func c06NoApply(ch *c06Change, src string, tree *ref.Tree) (ok bool, why string)
 		return false, "needle-present"
 	case "guarded":
 		switch {
+		case strings.HasPrefix(ch.Guard, "package:file-is-external-test:"), strings.HasPrefix(ch.Guard, "package:guard-is-prefix:"):
+			// the guard names package X; any other name, X_test included, is another package
+			if ref.PackageOf(tree) != ch.Guard[strings.LastIndex(ch.Guard, ":")+1:] {
+				return true, "guard:" + ch.Guard[:strings.LastIndex(ch.Guard, ":")]
+			}
 		case strings.HasPrefix(ch.Guard, "package"):
 			if ref.PackageOf(tree) != "c06nosuchpkg" {
 				return true, "guard:" + ch.Guard
